@@ -10,7 +10,9 @@ import Thanos.Generated.Facts
      include all of its sources;
    * `C31_cover`: every source of every block is a source of some kept block;
    * `C31_perm`: the set of hidden blocks does not depend on the listing order (Go map order,
-     `sort.Slice` instability);
+     `sort.Slice` instability) — because the comparator, with the full ULID order (time, then
+     entropy) as last tie-break, is a total order (`sort_unique`); `C31_time_only_order_dependent`
+     shows that a tie-break on the timestamp alone loses this;
    * `C31_concurrency`: groups are filtered independently and the hidden set is the union over
      groups, whatever way the groups are distributed over workers and in whatever order their
      results arrive.
@@ -108,22 +110,25 @@ theorem C31_dups_are_blocks (metas : List Meta) (hd : DistinctIds metas) (d : Na
   exact ⟨c, hc, e⟩
 
 /-- **C31 (3)**: the outcome does not depend on the listing order. -/
-theorem C31_perm (metas metas' : List Meta) (p : metas.Perm metas') (hd : DistinctIds metas) (d : Nat) :
+theorem C31_perm (metas metas' : List Meta) (p : metas.Perm metas') (hd : DistinctIds metas)
+    (hk : KeyInj metas) (d : Nat) :
     d ∈ dups metas ↔ d ∈ dups metas' := by
   have key : ∀ g, filterGroup (groupMetas metas g) = filterGroup (groupMetas metas' g) := by
     intro g
     unfold filterGroup
     have : sortMetas (groupMetas metas g) = sortMetas (groupMetas metas' g) :=
       sort_unique (p.filter _) (distinct_groupMetas hd g)
+        (fun a ha b hb => hk a (mem_groupMetas.mp ha).1 b (mem_groupMetas.mp hb).1)
     rw [this]
   simp only [mem_dups, key]
   constructor
   · rintro ⟨g, ⟨m, hm, e⟩, h⟩; exact ⟨g, ⟨m, p.mem_iff.mp hm, e⟩, h⟩
   · rintro ⟨g, ⟨m, hm, e⟩, h⟩; exact ⟨g, ⟨m, p.mem_iff.mpr hm, e⟩, h⟩
 
-theorem C31_perm_kept (metas metas' : List Meta) (p : metas.Perm metas') (hd : DistinctIds metas) (m : Meta) :
+theorem C31_perm_kept (metas metas' : List Meta) (p : metas.Perm metas') (hd : DistinctIds metas)
+    (hk : KeyInj metas) (m : Meta) :
     m ∈ kept metas ↔ m ∈ kept metas' := by
-  rw [C31_partition, C31_partition, p.mem_iff, C31_perm metas metas' p hd]
+  rw [C31_partition, C31_partition, p.mem_iff, C31_perm metas metas' p hd hk]
 
 theorem dupsIn_flatten (metas : List Meta) : ∀ ws : List (List Nat),
     dupsIn metas ws.flatten = ws.flatMap (dupsIn metas)
@@ -157,6 +162,21 @@ theorem C31_swapped_contains_false :
     ¬ (∀ a ∈ ([1, 2, 3] : List Nat), a ∈ ([1] : List Nat)) ∧ contains [1, 2, 3] [1] = true ∧
       contains [1] [1, 2, 3] = false := by decide
 
+/-- **Why the tie-break must be the full ULID order**: with a tie-break on the ULID's timestamp
+    alone (`lessT`), two blocks of one group with the same sources and level whose ULIDs differ
+    only in entropy compare equal, the comparator is not a total order, and which of the two is
+    hidden depends on the order in which the listing (a Go map) hands them over. -/
+theorem C31_time_only_order_dependent :
+    let a : Meta := ⟨5001, 5, 1, 0, 1, [10, 11]⟩
+    let b : Meta := ⟨5002, 5, 2, 0, 1, [10, 11]⟩
+    [a, b].Perm [b, a] ∧ DistinctIds [a, b] ∧ KeyInj [a, b] ∧
+      dupsT [a, b] = [5001] ∧ dupsT [b, a] = [5002] ∧
+      dups [a, b] = [5002] ∧ dups [b, a] = [5002] := by
+  refine ⟨List.Perm.swap _ _ _, by unfold DistinctIds; decide, ?_, by decide, by decide, by decide, by decide⟩
+  intro x hx y hy
+  simp only [List.mem_cons, List.mem_nil_iff, or_false] at hx hy
+  rcases hx with rfl | rfl <;> rcases hy with rfl | rfl <;> simp
+
 -- ---------------------------------------------------------------- regenerated facts
 
 /-- `filterGroup` asks `contains(parentSources, childSources)` … -/
@@ -173,8 +193,8 @@ theorem C31_fact_sortLevel : Thanos.Facts.dedupSortLevelCond = "ilvl != jlvl" :=
 
 -- non-vacuity: a chain 1 ⊂ 2 ⊂ 3 in one group plus an equal-sources pair in another
 def exMetas : List Meta :=
-  [⟨3, 0, 2, [10, 11, 12, 13]⟩, ⟨1, 0, 1, [10, 11]⟩, ⟨2, 0, 1, [12, 13]⟩, ⟨4, 1, 1, [10, 11]⟩, ⟨5, 1, 1, [11, 10]⟩,
-   ⟨6, 0, 1, [13, 14]⟩, ⟨7, 2, 1, [20]⟩, ⟨8, 2, 2, [20]⟩]
+  [⟨3, 3, 0, 0, 2, [10, 11, 12, 13]⟩, ⟨1, 1, 0, 0, 1, [10, 11]⟩, ⟨2, 2, 0, 0, 1, [12, 13]⟩, ⟨4, 4, 0, 1, 1, [10, 11]⟩,
+   ⟨5, 4, 7, 1, 1, [11, 10]⟩, ⟨6, 6, 0, 0, 1, [13, 14]⟩, ⟨7, 7, 0, 2, 1, [20]⟩, ⟨8, 8, 0, 2, 2, [20]⟩]
 
 example : DistinctIds exMetas := by unfold DistinctIds; decide
 example : dups exMetas = [1, 2, 5, 7] := by decide   -- 8 (level 2) hides its parent 7 although 7 < 8
